@@ -40,8 +40,9 @@ Section Dynamic.
   (* ---- _compute_bound_centers ---- *)
   Definition big : T := lit OP 900000000000000046043660025856 0.          (* 9e29 *)
   Definition eps_pole : T := lit OP 3602879701896397 (-55).                (* 0.1 *)
-  (* xarr[xarr > 9e29] = np.nan *)
-  Definition clean (v : T) : T := if ltb OP big v then nan OP else v.
+  (* xarr[xarr > 9e29] = np.nan; yarr[yarr > 9e29] = np.nan -- REGENERATED (gen_clean_xy, one position) *)
+  Definition clean_xy (p : T * T) : T * T := gen_clean_xy OP (fst p) (snd p).
+  Definition clean (v : T) : T := if ltb OP big v then nan OP else v.     (* its clean form, per coordinate *)
 
   (* np.nanmin / np.nanmax: Model/DynBase.v *)
 
@@ -62,8 +63,9 @@ Section Dynamic.
 
   (* returns (pm=180 put into the projection?, x corners or None, ymin, ymax) *)
   Definition bound_centers (geographic : bool) (mode : amode) (pts : list (T * T)) : bool * option (T * T) * T * T :=
-    let xs := map (fun p => clean (fst p)) pts in
-    let ys := map (fun p => clean (snd p)) pts in
+    let cl := map clean_xy pts in
+    let xs := map fst cl in
+    let ys := map snd cl in
     let xmin := nanmin OP xs in let xmax := nanmax OP xs in
     let ymin := nanmin OP ys in let ymax := nanmax OP ys in
     (* the guard is REGENERATED from the source: gen_am_test = geographic && passes_antimeridian && not y_is_pole *)
@@ -133,12 +135,18 @@ Section Dynamic.
         end
     end.
 
+  (* ---- SwathDefinition.compute_optimal_bb_area (= freeze with optimize_projection=True): the projection parameters and the
+     uniform shape (h, w) come from PROJ / Geod (oracles); the result is a NEW DynamicAreaDefinition of that projection
+     frozen on all positions of the swath (get_lonlats) with that shape ---- *)
+  Definition optimal_bb_area (h w : Z) (geographic : bool) (aou : aou_t T) (pts : list (T * T)) : option (frozen T) :=
+    freeze (mk_dyn None None None RNone) RNone (Some (Some h, Some w)) geographic MNone aou pts.
+
   (* ---- masked_ints around get_array_coordinates_from_projection_coordinates: None = masked ---- *)
   Definition eps_idx : T := lit OP 5764607523034235 (-58).                  (* 0.02 *)
   Definition half : T := lit OP 1 (-1).
   Definition clipf (v lo hi : T) : T := fmin OP (fmax OP v lo) hi.          (* np.clip = minimum(maximum(v, lo), hi) *)
   Definition masked_index (c : T) (n : Z) : option Z :=
-    if ltb OP c (sub OP (neg OP half) eps_idx) || ltb OP (add OP (sub OP (ofZ OP n) half) eps_idx) c then None
+    if ltb OP c (sub OP (neg OP half) eps_idx) || ltb OP (add OP (sub OP (ofZ OP n) half) eps_idx) c || isnan OP c then None
     else Some (rintZ OP (clipf c (ofZ OP 0) (ofZ OP (n - 1)))).
   Definition index_x (a : area T) (x : T) : option Z := masked_index (arr_of_proj_x OP a x) (width a).
   Definition index_y (a : area T) (y : T) : option Z := masked_index (arr_of_proj_y OP a y) (height a).
